@@ -1252,11 +1252,11 @@ namespace Pistache::Http
 
     void Timeout::disarm()
     {
-        if (transport && isArmed())
-        {
-            transport->disarmTimer(timerFd);
+        // Only the shared flag is touched: the writer may be on any thread, the table of timers
+        // belongs to the worker. A disarmed timer still expires; its continuation then finds
+        // the flag cleared, does nothing and closes the descriptor.
+        if (armed)
             armed->store(false);
-        }
     }
 
     bool Timeout::isArmed() const { return armed && armed->load(); }
